@@ -169,8 +169,8 @@ def _run(ctx, exe, thorough):
     # E4 + E3: random schedules of random programs -------------------------------------------------
     plan = [(256, 0, 70), (256, 3, 40), (128, 0, 25)]
     if thorough:
-        plan = [(256, 0, 1500), (256, 3, 800), (128, 0, 500), (128, 3, 300), (64, 0, 300), (64, 3, 150),
-                (16, 0, 60)]
+        plan = [(256, 0, 600), (256, 3, 300), (128, 0, 200), (128, 3, 100), (64, 0, 100), (64, 3, 50),
+                (16, 0, 20)]
     allr = os.path.join(ctx.work, 'rand_all.ndjson')
     execs = 0
     tots = []
